@@ -6,8 +6,10 @@ import random
 from . import core, treeio, fam_transform as ft
 
 
-def op(name, relc=(), bare=False, pos=0, preset='~', rules=()):
-    return {'name': name, 'relc': list(relc), 'bare': bare, 'pos': pos, 'preset': preset, 'rules': list(rules)}
+def op(name, relc=(), bare=False, pos=0, preset='~', rules=(), keep=(), flags=(), rows=(), fop='~', fval=0):
+    return {'name': name, 'relc': list(relc), 'bare': bare, 'pos': pos, 'preset': preset, 'rules': list(rules),
+            'keep': [list(k) for k in keep], 'flags': sorted(flags),
+            'rows': [{'idx': i, 'word': w, 'tag': list(t)} for (i, w, t) in rows], 'fop': fop, 'fval': fval}
 
 
 def L(s):
@@ -29,6 +31,29 @@ BINB = op('binarize', bare=True)
 COL = op('collapse_unary_chains')
 UNC = op('uncollapse_unary_chains')
 PDEL = op('punctuation_delete')
+TOK_TR1 = {'word': '*T*-1', 'tag': L('-NONE-'), 'edge': '--'}
+TOK_TR2 = {'word': '*', 'tag': L('-NONE-'), 'edge': '--'}
+TOK_TR3 = {'word': '*ICH*=2', 'tag': L('-NONE-'), 'edge': '--'}
+TRACE_WORDS = ['*T*-1', '*', '*ICH*=2', '*U*', '*-3']
+PTBS = [op('ptb_delete_traces'), op('ptb_delete_traces', flags=['keepall']),
+        op('ptb_delete_traces', keep=['*T*']), op('ptb_delete_traces', keep=['*T*', '*'], flags=['keepcoindex']),
+        op('ptb_delete_traces', flags=['keepall', 'keepcoindex'])]
+
+
+def rowsets(idxs):
+    out = []
+    for i in idxs:
+        out.append([(i, 'x', 'NEW')])
+        for j in idxs:
+            if j > i:
+                out.append([(i, 'x', 'NEW'), (j, 'y', 'NEU')])
+    return out
+
+
+INS = [op('insert_terminals', rows=r, flags=f) for r in rowsets([-1, 0, 1, 2, 3, 5]) for f in ([], ['quiet'])]
+SUB = [op('substitute_terminals', rows=r, flags=f) for r in rowsets([-1, 0, 1, 3, 4]) + [[(2, 'x', '')]]
+       for f in ([], ['quiet'])]
+FILT = [op('filter_by_length', fop=o_, fval=v) for o_ in ('lt', 'gt', 'eq') for v in (1, 2, 3)]
 
 
 def model(N, MaxCons, MaxChain=1, NMin=1, toks=(PLAIN,), labels=('X',), edges=('--',), ops=(),
@@ -66,6 +91,12 @@ MODELS = {
                          model(4, 6, MaxChain=4, labels=('A', 'B'), NMin=2, programs=[[COL, UNC]])]},
     'C15': {'quick': [model(4, 2, toks=(PLAIN, TOK_HD, TOK_NK), edges=('--', 'HD', 'NK'), programs=[[NEGRA]])],
             'thorough': [model(5, 3, toks=(PLAIN, TOK_HD, TOK_NK), edges=('--', 'HD', 'NK'), programs=[[NEGRA]])]},
+    'C11': {'quick': [model(4, 2, MaxChain=2, toks=(PLAIN, TOK_COMMA), programs=[[PDEL]] + [[op('delete_terminal', pos=i)] for i in (1, 2, 3, 4)]),
+                      model(3, 2, MaxChain=2, toks=(PLAIN, TOK_TR1, TOK_TR2), labels=('X', 'NP-1', 'S=2-1'), programs=[[o] for o in PTBS]),
+                      model(3, 2, NMin=2, programs=[[o] for o in INS + SUB + FILT])],
+            'thorough': [model(5, 4, MaxChain=2, toks=(PLAIN, TOK_COMMA), programs=[[PDEL]] + [[op('delete_terminal', pos=i)] for i in (1, 2, 3, 4, 5)]),
+                         model(4, 3, MaxChain=2, toks=(PLAIN, TOK_TR1, TOK_TR2, TOK_TR3), labels=('X', 'NP-1', 'S=2-1'), programs=[[o] for o in PTBS]),
+                         model(3, 3, MaxChain=2, programs=[[o] for o in INS + SUB + FILT] + [[INS[3], SUB[5]], [SUB[2], INS[1]]])]},
     'C04': {'quick': [model(3, 3, MaxChain=2, toks=(PLAIN, TOK_COMMA, TOK_QUOTE), ops=ALLOPS, MaxOps=2),
                       model(4, 2, toks=(PLAIN, TOK_COMMA), edges=('--', 'HD'), ops=ALLOPS, MaxOps=2)],
             'thorough': [model(3, 3, MaxChain=2, toks=(PLAIN, TOK_COMMA, TOK_QUOTE), edges=('--', 'HD'), ops=ALLOPS, MaxOps=3),
@@ -82,6 +113,7 @@ CFG = """CONSTANTS N = %(N)d
  CEdges <- c_CEdges
  OpSet <- c_OpSet
  Programs <- c_Programs
+ WC <- c_WC
  PUNCT <- c_PUNCT
  PAIRPUNCT <- c_PAIRPUNCT
  Dev <- c_Dev
@@ -102,16 +134,47 @@ CHECK_DEADLOCK FALSE
 """
 
 
+CFG_HR = """CONSTANTS RulesTab <- c_Rules
+ Decos <- c_Decos
+ MaxLen = %(MaxLen)d
+ Stride = %(Stride)d
+ Offset = %(Offset)d
+ PUNCT <- c_PUNCT
+ PAIRPUNCT <- c_PAIRPUNCT
+ Dev <- c_Dev
+INIT Init
+NEXT Next
+INVARIANT InvRef
+INVARIANT Emit
+CHECK_DEADLOCK FALSE
+"""
+
+
+def run_headrules(w, cfgc, tier, seed, dev=()):
+    decos = [[], list('-SBJ-1'), list('=2'), list("'")]
+    b = dict(MaxLen=3, Stride=3, Offset=seed % 3) if tier == 'quick' else dict(MaxLen=3, Stride=1, Offset=0)
+    defs = {'c_Rules': cfgc['rules'], 'c_Decos': set_of(decos if tier != 'quick' else decos[:2] + decos[3:]),
+            'c_PUNCT': set(cfgc['PUNCT']), 'c_PAIRPUNCT': set(cfgc['PAIRPUNCT']), 'c_Dev': set(dev)}
+    core.gen_module(w, 'MCHR', ['MC_HeadRules'], defs)
+    return core.tlc(w, 'MCHR', CFG_HR % b, timeout=3000), b
+
+
 def asis_dev():
     """deviations still present in /repo = known findings that carry a deviation name"""
     return sorted({f['deviation'] for f in core.load_findings()['findings'] if f.get('deviation')})
 
 
 def run_mc(w, m, cfgc, dev=(), emit=True, timeout=3000, name='MCT'):
-    ops = [json.loads(o) if isinstance(o, str) else o for o in m['OpSet']]
+    def fl(o):
+        o = dict(o)
+        o['flags'] = set(o['flags'])
+        return o
+    ops = [fl(json.loads(o) if isinstance(o, str) else o) for o in m['OpSet']]
+    progs = [[fl(o) for o in p] for p in m['Programs']]
     defs = {'c_TokKinds': set_of(m['TokKinds']), 'c_CLabels': set_of(m['CLabels']),
             'c_CEdges': set(m['CEdges']), 'c_OpSet': set_of(ops),
-            'c_Programs': set_of(m['Programs']),
+            'c_Programs': set_of(progs),
+            'c_WC': [[w_, treeio.chars(w_)] for w_ in TRACE_WORDS],
             'c_PUNCT': set(cfgc['PUNCT']), 'c_PAIRPUNCT': set(cfgc['PAIRPUNCT']), 'c_Dev': set(dev)}
     core.gen_module(w, name, ['MC_Transform'], defs)
     cfg = CFG % dict(m, emit='INVARIANT Emit' if emit else '')
@@ -151,6 +214,8 @@ RANDOM_PROGRAMS = {
     'C13': PUNCTP,
     'C14': [[NEGRA, BIN], [NEGRA, BINB], [COL, UNC], [NEGRA, BIN, COL, UNC]],
     'C15': [[NEGRA]],
+    'C11': [[PDEL], [PTBS[0]], [PTBS[1]], [PTBS[3]], [INS[5]], [SUB[4]], [SUB[5]], [FILT[4]], [PDEL, INS[2]],
+            [op('delete_terminal', pos=1)], [op('delete_terminal', pos=2), PDEL]],
     'C04': [[ROOT_ATTACH, NEGRA, SPLIT, RAISE, TOP], [ROOT_ATTACH, PVL, NEGRA, BIN, COL, UNC],
             [PRT, NEGRA, BIN], [ROOT_ATTACH, PSY, PVL, TOP, COL], [NEGRA, SPLIT, RAISE, BIN, COL, UNC],
             [TOP, ROOT_ATTACH, PRT, COL, UNC], [ROOT_ATTACH, PSYR, NEGRA, SPLIT, RAISE, PRT]],
@@ -162,17 +227,32 @@ def random_cases(prop, tier, seed, mods):
     n = 150 if tier == 'quick' else 1500
     out = []
     words = ['w', 'w', 'w', ',', '"', '.', '(', ')']
+    tags = ('T', 'PRELS')
+    if prop == 'C11':
+        words = ['w', 'w', ',', '.', '*T*-1', '*', '*U*', '*-3']
+
 
     def wordf(r, p):
         x = r.choice(words)
         return 'w%d' % p if x == 'w' else x
+
+    def fix_traces(T):
+        for x in T['nodes']:
+            if x['tok']:
+                x['a']['lab'] = list('-NONE-') if x['a']['word'].startswith('*') else x['a']['lab']
+        if all(''.join(x['a']['lab']) == '-NONE-' for x in T['nodes'] if x['tok']):
+            T['nodes'][-1]['a']['word'] = 'wz'
+            T['nodes'][-1]['a']['lab'] = ['T']
     for k in range(n):
         T = treeio.random_tree(rnd, nmax=8 if tier == 'quick' else 11, maxcons=6,
                                labels=('S', 'NP', 'VP', 'NP-1'), edges=('--', 'HD', 'NK'),
                                words=wordf, tags=('T', 'PRELS'), tokedges=('--', 'HD', 'NK'), chain=0.4)
         for x in T['nodes']:
             x['a']['lab'] = list(x['a']['lab'])
+        fix_traces(T)
         prog = rnd.choice(RANDOM_PROGRAMS[prop])
+        if prop == 'C11':
+            prog = [o for o in prog if not (o['name'] == 'delete_terminal' and (o['pos'] > T['n'] or T['n'] < 2))]
         if T['n'] < 2:
             prog = [o for o in prog if o['name'] not in ('collapse_unary_chains', 'uncollapse_unary_chains')]
         out.append(ft.record_case('R-%05d' % k, T, prog, mods, seed + k, origin='random'))
@@ -203,6 +283,12 @@ def run(prop, tier, seed, replay=None):
                     {x: m[x] for x in ('N', 'NMin', 'MaxCons', 'MaxChain', 'MaxOps')}, sort_keys=True)),
                     r, 'all trees within bounds x programs %s; invariants TreeOK, Clauses = {}, RetRoot'
                     % [[o['name'] for o in p] for p in m['Programs']][:6])
+                skel.extend(r.cases)
+            if prop == 'C15':
+                r, b = run_headrules(w, cfgc, tier, seed)
+                core.tlc_ok(r, 'MC_HeadRules')
+                rep.add_mc('MC_HeadRules %s' % json.dumps(b, sort_keys=True), r,
+                           'both presets x parent categories x child sequences with exactly one listed child x decorations')
                 skel.extend(r.cases)
             skel = drop_prefixes(skel)
             cases.extend(core.pmap(ft.record_case,
